@@ -339,20 +339,39 @@ func TestVerifC08(t *testing.T) {
 	}
 	pnames := map[string][2]string{"get-sth-consistency": {"first", "second"}, "get-proof-by-hash": {"tree_size", ""}, "get-entries": {"start", "end"}, "get-entry-and-proof": {"leaf_index", "tree_size"}}
 
-	run := func(ep string, q rq, rep c08Reply, mask bool) {
-		fl := &verifkit.FuncLog{}
-		rep.install(fl)
-		rl := &c08ReqLog{}
+	// a long-lived instance for request *sequences* (a fault injected at any call of a history); nil = fresh instance per request
+	type c08Inst struct {
+		li *logInfo
+		fl *verifkit.FuncLog
+		rl *c08ReqLog
+	}
+	var shared *c08Inst
+	newInst := func(signOk bool, mask bool) *c08Inst {
+		in := &c08Inst{fl: &verifkit.FuncLog{}, rl: &c08ReqLog{}}
 		var signer crypto.Signer = key
-		if !q.signOk && (ep == "add-chain" || ep == "add-pre-chain" || ep == "get-sth") {
+		if !signOk {
 			signer = c08BadSigner{key}
 		}
-		li := vLogInfo(fl, signer, util.NewFixedTimeSource(time.Date(2017, 9, 7, 12, 15, 23, 0, time.UTC)), nil, func(io *InstanceOptions, vo *CertValidationOpts) {
-			io.RequestLog = rl
+		in.li = vLogInfo(in.fl, signer, util.NewFixedTimeSource(time.Date(2017, 12, 4, 0, 1, 30, 0, time.UTC)), nil, func(io *InstanceOptions, vo *CertValidationOpts) {
+			io.RequestLog = in.rl
 			io.MaskInternalErrors = mask
+			io.Validated.Config.MaxMergeDelaySec = 86400
+			io.Validated.Config.ExpectedMergeDelaySec = 7200
 			vo.trustedRoots.AppendCertsFromPEM([]byte(cttestonly.FakeCACertPEM))
 			vo.trustedRoots.AppendCertsFromPEM([]byte(cttestonly.CACertPEM))
 		})
+		return in
+	}
+	run := func(ep string, q rq, rep c08Reply, mask bool) {
+		in := shared
+		if in == nil {
+			in = newInst(q.signOk || !(ep == "add-chain" || ep == "add-pre-chain" || ep == "get-sth"), mask)
+		} else {
+			*in.fl = verifkit.FuncLog{}
+			in.rl.scts, in.rl.status = 0, 0
+		}
+		fl, rl, li := in.fl, in.rl, in.li
+		rep.install(fl)
 		var qv url.Values
 		if pn, ok := pnames[ep]; ok {
 			qv = url.Values{}
@@ -546,4 +565,41 @@ func TestVerifC08(t *testing.T) {
 		}
 		run(ep, q, rep, r.Intn(4) == 0)
 	}
+
+	// 4. request sequences on one long-lived instance: clean and faulty replies interleaved, every request judged alone
+	//    (the front end keeps no state that may turn a later fault into a success)
+	// 4a. systematically: for every endpoint and every reply class f, the history [clean, f, clean, f] on one instance
+	for _, ep := range c08Eps {
+		for _, rep := range replies[ep] {
+			shared = newInst(true, false)
+			q := reqs[ep][0]
+			q.signOk = true
+			for _, rp := range []c08Reply{clean[ep], rep, clean[ep], rep} {
+				run(ep, q, rp, false)
+				out.Count("class:sequence-step")
+			}
+		}
+	}
+	// 4b. random mixed-endpoint histories
+	nseq := verifkit.N(150, 4000)
+	for it := 0; it < nseq; it++ {
+		shared = newInst(true, false)
+		ep := c08Eps[r.Intn(len(c08Eps))]
+		steps := 2 + r.Intn(5)
+		for k := 0; k < steps; k++ {
+			if r.Intn(4) == 0 {
+				ep = c08Eps[r.Intn(len(c08Eps))]
+			}
+			reps := replies[ep]
+			rep := clean[ep]
+			if r.Intn(2) == 0 {
+				rep = reps[r.Intn(len(reps))]
+			}
+			q := reqs[ep][r.Intn(len(reqs[ep]))]
+			q.signOk = true
+			run(ep, q, rep, false)
+			out.Count("class:sequence-step")
+		}
+	}
+	shared = nil
 }
